@@ -19,7 +19,7 @@ NEXT_P2 = "pow[2,ceil[log2[n]]]"
 def run(chk):
     P = chk.P
     chk.rule("R-FAS-TYPE", "spectrum: complex, linear in the record, degree +1 in dt; grid: real, independent of the record, degree -1 "
-                           "in dt, starts at 0; both have length int(N/2) for the same N that is the FFT length; grid = arange(points)/(2*points*dt)")
+                           "in dt, starts at 0; both have length int(N/2) for the same N that is the FFT length; grid = arange(points)/(N*dt) with that N for every length (odd ones included)")
     chk.rule("R-FAS-SIB", "the three implementations agree per configuration on FFT length, bin count and types: default = next power of "
                           "two (value-numbered: 2**int(ceil(log2(npts)) + p2_plus)), explicit n, unpadded N = npts")
     chk.rule("R-INV-DT", "fas2values / fas2signal: linear in the spectrum, degree -1 in dt, upper half = flip(conj(fas[1:])), bins 0 and "
@@ -43,12 +43,14 @@ def run(chk):
         ("generate", "default", GEN, {}, False), ("generate", "unpadded", GEN, {"n_pad": lambda: const_av(False)}, False),
     ]
     for impl, cfg, q, kw, is_obj in configs:
+        def _watch(I, q=q):
+            I.watch_arith = {q}
         if is_obj:
-            r = analyse(chk, q, lambda I, st, fi, kw=kw: {k: v() for k, v in kw.items()}, self_cls=SIG)
+            r = analyse(chk, q, lambda I, st, fi, kw=kw: {k: v() for k, v in kw.items()}, self_cls=SIG, setup=_watch)
             o = r.st.heap[r.self_obj.id]
             spec, grid = o.attrs.get("_fa_spectrum"), o.attrs.get("_fa_freqs")
         else:
-            r = analyse(chk, q, sigarg(kw))
+            r = analyse(chk, q, sigarg(kw), setup=_watch)
             spec, grid = item(r.ret, 0), item(r.ret, 1)
         c = "%s:%s(%s)" % (r.fi.module.relpath, r.fi.name, cfg)
         unmodelled_in(r, chk, "R-FAS-TYPE", c)
@@ -69,6 +71,32 @@ def run(chk):
         want = LinExpr("int[div[%r,2]]" % nfft) if nfft is not None else None
         chk.ob("R-FAS-TYPE", c + ".bins", "spectrum and grid both have int(N/2) entries for the FFT length N", ls is not None and
                ls == lg and want is not None and ls == want, derived="N=%r, len(spectrum)=%r, len(grid)=%r" % (nfft, ls, lg), loc=r.fi.loc())
+        # the bins are reported at k / (N * dt), N the FFT length: the spacing of the grid  arange(points) / (X * dt)  has X = N for EVERY length --
+        # compared as symbolic integers; different expressions are constant-folded over sample lengths (2 * int(N / 2) is N only for even N)
+        from ..values import split_product, compare_index_exprs
+        gd = [e for e in r.events("arith", q) if e.op == "Div" and e.left.kind == K_ARRAY and "arange0" in e.left.tags and
+              e.right.kind == K_SCALAR and e.right.sym is not None]
+        if gd and nfft is not None:
+            # one division by (X * dt), or a chain  arange / X / dt  (each step divides the arange-derived array)
+            X, seen_dt, multi = None, False, False
+            for e_ in gd:
+                sp_ = split_product(e_.right.sym, "dt")
+                if sp_ is not None:
+                    X, seen_dt, multi = sp_, True, multi or X is not None
+                elif LinExpr(e_.right.sym) == LinExpr("dt"):
+                    seen_dt = True
+                else:
+                    X, multi = LinExpr(e_.right.sym), multi or X is not None
+            if not seen_dt or multi:
+                X = None
+            if X is None:
+                chk.ob("R-FAS-TYPE", c + ".spacing", "grid = arange(points) / (N * dt) with N the FFT length", False,
+                       derived="divisor %r is not a product with dt" % (gd[-1].right.sym,), loc=gd[-1].loc, inconclusive=True)
+            else:
+                verdict, why = compare_index_exprs(X, nfft, samples=list(range(2, 70)) + [127, 128, 129, 255, 256, 257, 1000, 1023, 1024, 1025, 4683, 4684])
+                chk.ob("R-FAS-TYPE", c + ".spacing", "the bins are reported at k / (N * dt), N the FFT length (for every N, odd ones included)", verdict == "equal",
+                       derived="spacing 1 / (%r * dt), FFT length %r%s" % (X, nfft, "" if verdict == "equal" else " (%s)" % why), loc=gd[-1].loc,
+                       stmt=gd[-1].stmt, inconclusive=verdict == "unknown")
         results[(impl, cfg)] = (repr(nfft), repr(ls), spec.describe((R, DT)) if spec is not None else None,
                                 grid.describe((R, DT)) if grid is not None else None)
         grid_form(chk, r.fi, c)
@@ -156,8 +184,10 @@ def grid_form(chk, fi, c):
             ar = [a for a in d if a.startswith(("np.arange(", "numpy.arange("))]
             if len(ar) == 1 and d[ar[0]] == 1:
                 x = ar[0][ar[0].index("(") + 1:-1]
-                ok = co == Fraction(1, 2) and d.get(x) == -1 and d.get("dt") == -1 and len(d) == 3
-        chk.ob("R-FAS-TYPE", c + ".grid-form", "grid = arange(points) / (2 * points * dt)", ok, derived=why, loc=fi.loc(cd),
+                # arange(points) over dt times ONE count; which count it must be (the FFT length, for every length) is the `.spacing` obligation's
+                # business -- this rule first demanded the tree's own `2 * points`, which is the FFT length only for even N (defect F15, 9.21)
+                ok = d.get("dt") == -1 and len(d) == 3 and all(v_ in (1, -1) for v_ in d.values())
+        chk.ob("R-FAS-TYPE", c + ".grid-form", "grid = arange(points) / (count * dt)", ok, derived=why, loc=fi.loc(cd),
                stmt=norm_stmt(cd))
 
 
